@@ -263,23 +263,26 @@ pub fn fresh_sandbox(out: &Path, tag: &str, idx: u64) -> PathBuf {
 }
 
 /// reference save of a clone into a separate sandbox with the same shape; returns its snapshot
-pub fn reference_save(font: &Font, out: &Path, idx: u64, target_rel: &[String], sb: &Path) -> Snap {
+pub fn reference_save(font: &Font, out: &Path, idx: u64, target_rel: &[String], sb: &Path) -> (Snap, Snap, bool) {
     let rsb = out.join(format!("ref_{}", idx));
     let _ = std::fs::remove_dir_all(&rsb);
     let rt = rsb.join(target_rel.join("/"));
     std::fs::create_dir_all(rt.parent().unwrap()).unwrap();
     let keep = snapshot(sb);
     let clone = font.clone();
-    let _ = catch(|| clone.save(&rt));
+    let ok = matches!(catch(|| clone.save(&rt)), Ok(Ok(())));
     let snap = snapshot(&rsb);
-    if snapshot(sb) != keep {
+    let abs_tree = snapshot(sb);
+    if abs_tree != keep {
         restore(sb, &keep);
     }
     let _ = std::fs::remove_dir_all(&rsb);
-    snap
+    (snap, abs_tree, ok)
 }
 
 pub struct SaveRun {
+    pub reftree: Snap,
+    pub ref_ok: bool,
     pub before: Snap,
     pub after: Snap,
     pub obs: (String, String),
@@ -288,7 +291,7 @@ pub struct SaveRun {
 
 /// reference save, snapshot, the real save, snapshot; the Gallina case
 pub fn run_save(p: &Prepared, out: &Path, idx: u64, sb: &Path, target_rel: &[String]) -> SaveRun {
-    let reftree = reference_save(&p.font, out, idx, target_rel, sb);
+    let (reftree, abs_tree, ref_ok) = reference_save(&p.font, out, idx, target_rel, sb);
     let before = snapshot(sb);
     let target = sb.join(target_rel.join("/"));
     let res = catch(|| p.font.save(&target));
@@ -302,9 +305,10 @@ pub fn run_save(p: &Prepared, out: &Path, idx: u64, sb: &Path, target_rel: &[Str
         reftree: &reftree,
         ref_target: target_rel,
         sandbox: sb,
+        abs_tree: &abs_tree,
     });
     let gallina = format!("SCase {} {} {} {} {}", abs, gpath_of(target_rel), gsnap(&before), obs.0, gsnap(&after));
-    SaveRun { before, after, obs, gallina }
+    SaveRun { reftree, ref_ok, before, after, obs, gallina }
 }
 
 pub fn case(seed: u64, idx: u64, out: &Path, verbose: bool) -> CaseOut {
